@@ -92,11 +92,12 @@ Fixpoint find_module (g : graph) (n : str) : option module :=
 
 (* find_used_modules: a USEd name is matched with the first candidate of that name in
    chain(modules, external_modules) -- the project's modules in project order, then the link
-   objects for settings.extra_mods (which always holds settings.INTRINSIC_MODS).  The module nature
-   written in the statement plays no part (USE_RE does not keep it).  So a project module is found
-   whenever one has the name ([find_used_module], UseAssocProofs), which is why the rules below
-   use [find_module]: an ExternalModule has empty tables and a name that matches nothing stays a
-   string, either way the statement adds no entry. *)
+   objects for settings.extra_mods (which always holds settings.INTRINSIC_MODS); a name that some
+   statement of the scope uses with the module nature INTRINSIC (scope.intrinsic_uses, a set of
+   names) is matched among the link objects only.  So, outside intrinsic_uses, a project module is
+   found whenever one has the name ([find_used_spec], UseAssocProofs), which is why [used_module]
+   below uses [find_module]: an ExternalModule has empty tables and a name that matches nothing
+   stays a string, either way the statement adds no entry. *)
 Inductive cand := CMod (M : module) | CExt (n : str).
 Definition cand_name (x : cand) : str := match x with CMod M => m_name M | CExt n => n end.
 Definition chain (g : list module) (ext : list str) : list cand := map CMod g ++ map CExt ext.
@@ -106,6 +107,9 @@ Fixpoint first_match (l : list cand) (n : str) : option cand :=
   | x :: l' => if str_eqb (cand_name x) n then Some x else first_match l' n
   end.
 Definition find_used (g : list module) (ext : list str) (n : str) : option cand := first_match (chain g ext) n.
+(* a name in scope.intrinsic_uses: only the link objects are candidates *)
+Definition find_used_in (g : list module) (ext : list str) (intrinsic : bool) (n : str) : option cand :=
+  if intrinsic then first_match (map CExt ext) n else find_used g ext n.
 
 (* dict.update / repeated item assignment *)
 Definition update {V} (t : list (str * V)) (l : list (str * V)) : list (str * V) :=
@@ -155,10 +159,17 @@ Definition used_entities (tpub : table) (hid : list str) (u : use_stmt) : table 
   | Some items => update [] (rename_list tpub items)
   end.
 
+(* intrinsic_uses of the scope holds t: some USE statement of the scope for t says INTRINSIC *)
+Definition scope_intrinsic (M : module) (t : str) : bool :=
+  existsb (fun u => u_intrinsic u && str_eqb (u_target u) t) (m_uses M).
+(* the project module a USE statement of scope M is matched with *)
+Definition used_module (g : graph) (M : module) (u : use_stmt) : option module :=
+  if scope_intrinsic M (u_target u) then None else find_module g (u_target u).
+
 (* one USE statement of M; [h] gives the current (pub, all) tables of a module object *)
 Definition tabs := (table * table)%type.
 Definition use_step (g : graph) (M : module) (h : module -> tabs) (acc : tabs) (u : use_stmt) : tabs :=
-  match find_module g (u_target u) with
+  match used_module g M u with
   | None => acc                      (* the name stays a string: skipped *)
   | Some T =>
     let used := used_entities (fst (h T)) (use_hidden M (u_target u)) u in
@@ -235,10 +246,13 @@ Definition nested_lower_model (c : cls) (g : graph) (order : list str) (M : modu
 (* get_deps: the USE statements of the module and, recursively, those of its routines and of the
    procedure bodies of its interface blocks of every kind (plain, abstract, generic); likewise
    find_used_modules matches the USE statements of all of them with module objects *)
+(* (a name in intrinsic_uses of its scope is matched with a link object: no dependency) *)
+Definition scope_targets (M : module) : list str :=
+  map u_target (filter (fun u => negb (scope_intrinsic M (u_target u))) (m_uses M)).
 Definition nested_targets (M : module) : list str :=
-  flat_map (fun S => map u_target (s_uses S)) (m_nested M).
+  flat_map (fun S => scope_targets (as_module M S)) (m_nested M).
 Definition resolved_targets (g : graph) (M : module) : list str :=
-  filter (fun t => str_in t (names g)) (map u_target (m_uses M) ++ nested_targets M).
+  filter (fun t => str_in t (names g)) (scope_targets M ++ nested_targets M).
 Definition deps (g : graph) (M : module) : list str :=
   filter (fun t => negb (str_eqb t (m_name M))) (resolved_targets g M).
 Fixpoint topo_rounds (fuel : nat) (g : graph) (rem : list module) (done : list str) : option (list str) :=
@@ -387,19 +401,22 @@ Definition wf_nested (g : graph) (M : module) (S : nscope) : bool :=
   functional_b (flat_map (fun c => nested_imports c g M S) all_cls)
   && forallb (fun ne => negb (str_in (fst ne) (map d_name (s_decls S))))
              (flat_map (fun c => nested_imports c g M S) all_cls).
+(* Fortran 2018 C1412: a scoping unit does not reference an intrinsic module and a nonintrinsic
+   module of the same name: if a statement of the scope says USE, INTRINSIC :: t, no statement of
+   the scope for t without INTRINSIC finds a module t of the project *)
+Definition nature_legal_m (g : graph) (M : module) : bool :=
+  forallb (fun u => negb (u_intrinsic u)
+                    || forallb (fun u' => negb (str_eqb (u_target u) (u_target u')) || u_intrinsic u'
+                                          || match find_module g (u_target u') with Some _ => false | None => true end)
+                               (m_uses M))
+          (m_uses M).
+Definition nature_legal (g : graph) : bool :=
+  forallb (fun M => nature_legal_m g M && forallb (fun S => nature_legal_m g (as_module M S)) (m_nested M)) g.
 Definition wf_graph (g : graph) : bool :=
-  nodup_b (names g) && forallb (wf_module g) g
+  nature_legal g && nodup_b (names g) && forallb (wf_module g) g
   && forallb (fun M => forallb (wf_nested g M) (m_nested M)) g
   && forallb (fun M => forallb (fun u => negb (str_eqb (u_target u) (m_name M)))
                                (flat_map s_uses (m_nested M))) g.
-
-(* region of the recorded finding intrinsic-nature-ignored: a statement USE, INTRINSIC :: t, in a
-   module or in a scope nested in it, where t is also the name of a module of the project *)
-Definition nature_ok (g : graph) (M : module) : bool :=
-  forallb (fun u => negb (u_intrinsic u) || match find_module g (u_target u) with Some _ => false | None => true end)
-          (m_uses M).
-Definition nature_free (g : graph) : bool :=
-  forallb (fun M => nature_ok g M && forallb (fun S => nature_ok g (as_module M S)) (m_nested M)) g.
 
 (* the tables FORD ends with for module M denote exactly the Spec's sets *)
 Definition tables_ok (c : cls) (g : graph) (st : state) (M : module) : Prop :=
